@@ -307,6 +307,59 @@ func c12prepare(c *core.Ctx, r *rand.Rand) *c12shared {
 	return sh
 }
 
+// c12deepBurst: eight goroutines leave a barrier and each build a codec for a self-containing type under a
+// schema nested 150 levels deep (each build is several hundred calls deep on its own goroutine); every build
+// gives what it gives alone.
+type c12Deep struct {
+	V    int64    `json:"v"`
+	Next *c12Deep `json:"next"`
+}
+
+var c12deepSchema struct {
+	once sync.Once
+	s    avro.Schema
+	err  error
+}
+
+func c12deepBurst(fail func(kind, msg string)) {
+	c12deepSchema.once.Do(func() {
+		text := `{"type":"record","name":"d150","fields":[{"name":"v","type":"long"}]}`
+		for k := 149; k >= 1; k-- {
+			text = fmt.Sprintf(`{"type":"record","name":"d%d","fields":[{"name":"v","type":"long"},{"name":"next","type":["null",%s]}]}`, k, text)
+		}
+		c12deepSchema.s, c12deepSchema.err = avro.SchemaFromString(text)
+	})
+	if c12deepSchema.err != nil {
+		fail("build-deep", "schema: "+c12deepSchema.err.Error())
+		return
+	}
+	const n = 8
+	var ready atomic.Int32
+	var wg sync.WaitGroup
+	enc := []byte{2, 2, 4, 2, 6, 0} // v=1 -> v=2 -> v=3 -> null
+	for g := 0; g < n; g++ {
+		wg.Add(1)
+		go func() {
+			defer wg.Done()
+			ready.Add(1)
+			for ready.Load() < n {
+			}
+			codec, err := c12deepSchema.s.Codec(c12Deep{})
+			if err != nil {
+				fail("build-deep", "a codec that builds alone was refused while other builds were running: "+err.Error())
+				return
+			}
+			var v c12Deep
+			rb := avro.NewReadBuf(enc)
+			if err := codec.Read(rb, unsafe.Pointer(&v)); err != nil || v.V != 1 || v.Next == nil || v.Next.V != 2 || v.Next.Next == nil || v.Next.Next.V != 3 || v.Next.Next.Next != nil {
+				fail("build-deep", fmt.Sprintf("deep codec decodes a three-element chain as %+v err=%v", v, err))
+			}
+			rb.ExtractResourceBank().Close()
+		}()
+	}
+	wg.Wait()
+}
+
 var c12freshSeq atomic.Int64
 
 // c12freshBurst creates a key type that has never been looked up, releases builders and a registrar
@@ -564,7 +617,7 @@ func runC12(c *core.Ctx, i int) {
 				case op < 44: // Encoder[T] on a private writer
 					kind = "encoder"
 					var buf bytes.Buffer
-					if err := sh.stat.Encode(&buf, sh.statV, lib.EncodeCfg{Compression: compressions[gr.IntN(3)], BlockSize: 64, Plan: lib.FlushPlan{AtEnd: 1}}); err != nil {
+					if err := sh.stat.Encode(&buf, sh.statV, lib.EncodeCfg{NoScratch: true, Compression: compressions[gr.IntN(3)], BlockSize: 64, Plan: lib.FlushPlan{AtEnd: 1}}); err != nil {
 						fail(kind, err.Error())
 					} else if cont, err := refavro.ReadContainer(buf.Bytes()); err != nil {
 						fail(kind, err.Error())
@@ -715,6 +768,10 @@ func runC12(c *core.Ctx, i int) {
 	for fk := 0; fk < 6 && len(fails) == 0; fk++ {
 		ops := c12freshBurst(c, i, fk, 1000+fk, &nextID, fail)
 		codecHist = append(codecHist, ops...)
+	}
+	if i%8 == 3 && len(fails) == 0 {
+		c12deepBurst(fail)
+		c.Count("deep-build-bursts", 1)
 	}
 	for _, f := range fails {
 		c.Violate("result-differs", fmt.Sprintf("under %d goroutines an operation did not produce its sequential result: %s", N, f), map[string]any{"goroutines": N})
